@@ -433,6 +433,18 @@ fn ok_suite(suite: &str, a: &[&str]) -> Option<String> {
             let l2 = Line::new(pt(a[4], a[5]), pt(a[6], a[7]));
             verdict(|| embedded_graphics::primitives::verif_hooks::line_intersection(l1, l2))
         }
+        "ok_extents" => {
+            let l = Line::new(pt(a[0], a[1]), pt(a[2], a[3]));
+            verdict(|| embedded_graphics::primitives::verif_hooks::line_extents(l, u(a[4]), a[5].parse::<u8>().unwrap()))
+        }
+        "ok_join" => verdict(|| {
+            embedded_graphics::primitives::verif_hooks::line_join(2, pt(a[0], a[1]), pt(a[2], a[3]), pt(a[4], a[5]), u(a[6]), a[7].parse::<u8>().unwrap())
+        }),
+        "ok_thick_points" => {
+            let l = Line::new(pt(a[0], a[1]), pt(a[2], a[3]));
+            let st = PrimitiveStyle::with_stroke(Rgb565::new(1, 2, 3), u(a[4]));
+            verdict(|| l.into_styled(st).pixels().take(20_000_000).count())
+        }
         "ok_measure" | "ok_draw_plain" => {
             // custom mono font: x y baseline n underline cw ch sp bl uo uh
             use embedded_graphics::mono_font::{mapping::ASCII, DecorationDimensions, MonoFont, MonoTextStyleBuilder};
